@@ -1,12 +1,17 @@
 """C19 — complexes, linkage classes, weak reversibility and deficiency (synkit/CRN/Props/deficiency.py).
 
-case = network case of gen/c17_nets.py (+ optional "delta"/"wr" labels of textbook networks).
+case = network case of gen/c17_nets.py (+ optional "delta"/"wr" labels of textbook networks), optionally with
+    "edits" + "style"   a call history on one analyzer (gen/c19_adv.py; model run19_sm),
+    "api"               one of the alternative entry routes (gen/c19_adv.py API_VARIANTS),
+    "script" + "opts"   a script of arbitrary public calls with edits in between (gen/c19_api.py; model run19_ops),
+    "mut" (+ "und", "par")  a raw attributed bipartite graph (gen/c19_api.py; model run19_nodes).
 
-Observable:  [0, complexes (in creation order, vectors over the sorted species), complex-graph arcs (set),
+Plain observable:  [0, complexes (in creation order, vectors over the sorted species), complex-graph arcs (set),
               linkage classes (in networkx discovery order = by smallest complex index; each a set),
               [n_species, n_reactions, n_complexes, n_linkage, rank, deficiency, weakly_reversible],
               linkage deficiencies (same order as the classes), certificate-checker flag (True on the implementation side),
-              regular, check_deficiency_zero, check_deficiency_one, deficiency-one hypotheses_satisfied]            or [2] on ValueError (no reaction).
+              regular, check_deficiency_zero, check_deficiency_one, deficiency-one hypotheses_satisfied,
+              [nullity, max_complex_size] of a probing nondegeneracy_test]            or [2] on ValueError (no reaction).
 Ranks are numpy float ranks on the implementation side and certificate-checked exact ranks on the model side.
 """
 from ..coqrun import cZ, cnat, clist
@@ -31,44 +36,56 @@ EXPLANATION = ("quick: ALL sets of 1..2 reactions over the 90 reactions between 
                "thorough: ALL sets of 1..3 such reactions (121 575) and 20 000 sampled sets of 1..2 reactions with coefficients in {0,1,2} over 3 species "
                "up to species permutation (of ~4.6e4).  Plus seeded random networks <= 6-7 species x 6 reactions, mass-balanced random networks, "
                "textbook networks with known deficiency (A+B<->C: 0, Edelstein: 1, futile cycles: 1 and 2, Horn-Jackson: 2, ...), bridged-cycle networks (>= 5 reactions, "
-               "one-way / two-way bridges), networks with 10-13 species and 10-12 reactions (multi-digit names / ids), call histories on ONE analyzer object with the "
-               "hypergraph edited between the analyses (every answer compared with a fresh analyzer), disjoint multi-class networks, ill-conditioned stoichiometry "
-               "(multi-digit coefficients, near-singular and exactly singular blocks), and the regression corpus.  "
+               "one-way / two-way bridges), networks with 10-13 species and 10-12 reactions (multi-digit names / ids), chains with 24 and 100 species (thorough: up to 128), "
+               "call histories on ONE analyzer object with the hypergraph edited between the analyses (every answer compared with a fresh analyzer), scripts of arbitrary "
+               "public calls on one analyzer with edits in between (result / error code and every stored field after every call), raw attributed bipartite graphs "
+               "(missing / odd kind, bipartite flag, label, role, stoich; reversed arcs; undirected, multigraph and directed-multigraph inputs), disjoint multi-class networks, "
+               "ill-conditioned stoichiometry (multi-digit coefficients, near-singular and exactly singular blocks), and the regression corpus.  "
                "Theorems (all inputs, closed under the global context): complexes = the distinct reactant/product vectors (NoDup, complete, vectors equal iff "
                "multisets equal), complex-graph arcs, linkage classes = connected components (partition, same class iff undirected path; fuel suffices), weak "
                "reversibility <-> every class strongly connected <-> every arc has a return path, deficiency = n - l - exact (MathComp) rank, "
-               "rank S + l <= n hence deficiency >= 0, sum of class deficiencies <= deficiency and every class deficiency >= 0 (ranks certified by the proved checker).")
+               "rank S + l <= n hence deficiency >= 0, sum of class deficiencies <= deficiency and every class deficiency >= 0 (ranks certified by the proved checker), "
+               "regularity / deficiency-zero / deficiency-one front ends, the public API as a state machine (coherence of the stored fields after ANY call sequence, "
+               "API-level linkage sum, error codes), the identifier / attribute level of _complex_vectors and the undirected-input conversion refine the label-level model.")
 TRUSTED_BASE = [
     "Coq 8.16.1 kernel + vm_compute (no native_compute)",
-    "MathComp 1.15 (\\rank over rat) + mathcomp.zify for lib/RankBridge.v, axiom-free",
-    "hand-written model coq/model/C19_Model.v (on top of model/C17_Model.v) tied to deficiency.py by the per-run correspondence",
-    "harness encoders harness/props/C19.py and the tok digest",
+    "MathComp 1.15 (\\rank, kermx over rat) + mathcomp.zify for lib/RankBridge.v and lib/C19_FastRank.v, axiom-free",
+    "hand-written models coq/model/C19_Model.v (label level, on top of model/C17_Model.v), model/C19_Api.v (public API state machine, logic part of nondegeneracy_test), "
+    "model/C19_Nodes.v (identifier / attribute level, undirected-input conversion) tied to deficiency.py / utils.py / conversion.py by the per-run correspondence; "
+    "model/C19_Fast.v is NOT trusted (proved equal to C19_Model: C19_fast_eval)",
+    "harness encoders harness/props/C19.py (networks, raw graphs: node identifiers -> numbers, int(stoich) applied by the encoder) and the tok digest",
     "numpy matrix_rank and networkx connected_components / is_strongly_connected are NOT trusted: their results are compared per input with the model (lib/Reach.v closure, certified ranks)",
-    "the rank-certificate finder (harness/gen/c17_exact.py) is untrusted; only the Coq checker is",
+    "the rank-certificate finders (harness/gen/c17_exact.py, c19_exact.py) are untrusted; only the Coq checkers are (check_rank_f implies check_rank: proved)",
+    "float facts of nondegeneracy_test (numpy SVD: rank of S^T with cut-off 1e-9, position of the largest entry of each left-kernel basis vector) are oracle inputs of the model / compared per input",
 ]
 ASSUMPTIONS = ["species labels, rule labels and edge ids are printable ASCII strings",
-               "call histories re-analyse through a full route (compute_crn_deficiency, or compute_summary + compute_linkage_deficiencies + run_deficiency_one_algorithm); the staged API keeps derived fields of the previous network when only one stage is re-run (documented in notes/C19.md)",
-               "network given as CRNHyperGraph (or its directed hypergraph_to_bipartite export); edge ids unique; sides are dicts with positive integer counts"]
+               "network given as CRNHyperGraph, as its directed hypergraph_to_bipartite export, or as an (un)directed (multi)graph with the documented node / edge attributes; "
+               "edge ids unique; sides are dicts with positive integer counts (raw graphs with missing / odd attributes: correspondence only, the reading rules ARE the definition)",
+               "rank_fn=None (rank := 0 by design) is outside the property: correspondence only",
+               "the analyzer answers for the network it saw at its last compute_summary (stages are documented as building on it); compute_crn_deficiency always describes the current network"]
 TESTED_NOT_PROVED = [
-    "numpy float ranks (matrix_rank of S and of each class's difference vectors) equal the certified exact ranks (per input)",
+    "numpy float ranks (matrix_rank of S and of each class's difference vectors; SVD rank of S^T in nondegeneracy_test) equal the certified exact ranks (per input)",
     "networkx connected_components / is_strongly_connected / strongly_connected_components agree with the model's closures (per input)",
-    "regularity flag, deficiency-zero / deficiency-one front ends: modelled and compared per input, no theorem",
     "textbook deficiencies equal the literature values (per network)",
-    "deficiency >= 0 and sum of class deficiencies <= deficiency are PROVED for the model (C19_nonneg, C19_linkage_sum); the oracle also checks them per input on the implementation's numbers",
+    "deficiency >= 0 and sum of class deficiencies <= deficiency are PROVED for the model (C19_nonneg, C19_linkage_sum, C19_api_linkage_sum); the oracle also checks them per input on the implementation's numbers",
+    "explain() / __repr__ / as_dict() key sets / conclusion strings: asserted per input in the adapter against the stored fields (not modelled)",
 ]
-LEVEL_TEXT = ("Machine-checked proof (Coq) about an executable model of DeficiencyAnalyzer, for every network: the complex list is duplicate free "
+LEVEL_TEXT = ("Machine-checked proof (Coq) about executable models of DeficiencyAnalyzer, for every network: the complex list is duplicate free "
               "and consists exactly of the reactant and product vectors of the reactions (equal vectors iff equal multisets), the linkage classes "
               "are exactly the connected components of the complex graph (a partition; same class iff joined by an undirected path), the "
               "weak-reversibility flag is true exactly when every class is strongly connected (iff every reaction arc has a directed return path), "
               "the deficiency is n - l - rank with the exact rank over the rationals (MathComp) justified by a checked certificate, it is never "
-              "negative (rank S + l <= n proved from S = Y*Ia), and the linkage-class deficiencies never sum to more than it. The model is compared "
-              "with the Python code (complex list, arcs, classes, all integers and flags, class deficiencies) on every run over an exhaustive small "
-              "scope, random and textbook networks; numpy's float ranks are compared with the certified exact ranks per input.")
-LEVEL_NOTE = ("Universal: all sixteen model theorems and checker soundness. Per input: float ranks vs certified ranks; networkx component routines vs "
-              "the model's closures; regularity and the deficiency-zero/one front ends. Trusted: Coq kernel, MathComp, model + encoders. "
+              "negative (rank S + l <= n proved from S = Y*Ia), and the linkage-class deficiencies never sum to more than it — also at the level of the "
+              "public API: after ANY sequence of public calls with ANY edits of the network in between, every stored field describes the one network of the "
+              "last compute_summary and the reported class deficiencies never exceed the reported deficiency. The identifier / attribute level of the complex "
+              "builder and the undirected-input conversion are proved to refine the label-level model. The models are compared with the Python code "
+              "(complex list, arcs, classes, all integers and flags, class deficiencies, result / error code and every stored field after every call, raw attributed "
+              "graphs) on every run over an exhaustive small scope, random, textbook, large and adversarial networks; numpy's float ranks are compared with the certified exact ranks per input.")
+LEVEL_NOTE = ("Universal: all 41 model theorems and checker soundness. Per input: float ranks vs certified ranks; networkx component routines vs "
+              "the model's closures; float part of nondegeneracy_test (oracle inputs). Trusted: Coq kernel, MathComp, models + encoders. "
               "networkx/numpy results are compared, not trusted.")
-TECHNIQUE = ("Coq proof about a Gallina model (stdlib lists: walk invariant, lib/Reach saturation; MathComp: rank of Y*Ia, kernel of the incidence "
-             "matrix, block-rank bound) + per-run vm_compute correspondence + independent Python oracle")
+TECHNIQUE = ("Coq proof about Gallina models (stdlib lists: walk invariant, lib/Reach saturation, API state-machine invariant, identifier-level refinement; MathComp: rank of Y*Ia, kernel of the incidence "
+             "matrix, block-rank bound, kermx) + per-run vm_compute correspondence + independent Python oracle")
 
 
 # ------------------------------------------------------------------ implementation adapter
@@ -283,6 +300,9 @@ def _analyze_api(case, Xv):
         return DeficiencyAnalyzer(Xv, stoich_fn=None).compute_crn_deficiency()
     if v == "nondeg":
         return DeficiencyAnalyzer(Xv).compute_crn_deficiency(run_nondegeneracy=True)
+    if v == "listfn":                        # user functions: the matrix as nested lists, the rank as a float
+        return DeficiencyAnalyzer(Xv, stoich_fn=lambda g: stoichiometric_matrix(g).tolist(),
+                                  rank_fn=lambda g: float(stoichiometric_rank(g))).compute_crn_deficiency(run_nondegeneracy=True)
     if v == "staged":
         return DeficiencyAnalyzer(Xv).compute_summary().compute_linkage_deficiencies().run_deficiency_one_algorithm()
     if v == "lazy":                          # run_deficiency_one_algorithm computes the missing stages itself
@@ -341,7 +361,7 @@ _RT = {"compute_summary() must be called before linkage computations.": 1,
        "Call compute_summary() before nondegeneracy_test().": 8}
 
 
-def _float_argmax(a):
+def _float_argmax(a, tol=1e-9):
     """The float part of nondegeneracy_test that the model does not contain: for every basis vector of the left kernel (numpy SVD
     of S^T, absolute cut-off 1e-9) the position of its largest absolute entry.  Same numpy calls on the same input as the method
     itself (deterministic); asserted equal to the method's own per_basis when the method succeeds.  None when S cannot be built."""
@@ -355,15 +375,15 @@ def _float_argmax(a):
         return None
     n_species = N.shape[0]
     _U, svals, Vh = np.linalg.svd(N.T, full_matrices=True)
-    zero_idx = [i for i, sv in enumerate(svals) if sv <= 1e-9] + list(range(len(svals), n_species))
-    if n_species - int((svals > 1e-9).sum()) <= 0:
+    zero_idx = [i for i, sv in enumerate(svals) if sv <= tol] + list(range(len(svals), n_species))
+    if n_species - int((svals > tol).sum()) <= 0:
         return []
     return [int(np.argmax(np.abs(Vh.T[:, i]))) for i in zero_idx]
 
 
 def _call(a, name):
     """One public call -> (result / error code, float argmax positions used by it or None)."""
-    mis = _float_argmax(a) if name in ("nondeg", "crn1") else None
+    mis = _float_argmax(a, 1e-12 if name == "nondegt" else 1e-9) if name in ("nondeg", "nondegt", "crn1") else None
     try:
         if name == "summary":
             assert a.compute_summary() is a
@@ -373,6 +393,9 @@ def _call(a, name):
             assert a.run_deficiency_one_algorithm() is a
         elif name == "nondeg":
             assert a.nondegeneracy_test() is a
+        elif name == "nondegt":               # a tighter tolerance, by keyword: same exact answers, the tolerance is echoed
+            assert a.nondegeneracy_test(tol=1e-12) is a
+            assert a.nondegeneracy_result["tolerance"] == 1e-12
         elif name == "crn0":
             assert a.compute_crn_deficiency() is a
         elif name == "crn1":
@@ -391,7 +414,7 @@ def _call(a, name):
         return [3, _RT[str(e)]], mis
     except IndexError:
         return [4], mis
-    if name in ("nondeg", "crn1"):
+    if name in ("nondeg", "nondegt", "crn1"):
         assert [p["max_index"] for p in a.nondegeneracy_result["per_basis"]] == mis, (a.nondegeneracy_result, mis)
     return [0], mis
 
@@ -438,7 +461,7 @@ def _dump(a):
     if nd is not None:
         assert dict(d["nondegeneracy"]) == dict(nd)
         assert set(nd) == {"nullity", "basis", "per_basis", "largest_relevant_present", "max_complex_size", "tolerance"}, sorted(nd)
-        assert nd["tolerance"] == 1e-9 and len(nd["basis"]) == len(nd["per_basis"])
+        assert nd["tolerance"] in (1e-9, 1e-12) and len(nd["basis"]) == len(nd["per_basis"])
         assert all(set(p) == {"max_index", "max_value", "matches_max_complex"} and p["max_value"] == 1.0 for p in nd["per_basis"])
         o_nd = _some([int(nd["nullity"]), [[int(p["max_index"]), bool(p["matches_max_complex"])] for p in nd["per_basis"]],
                       bool(nd["largest_relevant_present"]), int(nd["max_complex_size"]), len(nd["basis"]) == nd["nullity"]])
